@@ -140,6 +140,11 @@ def run(chk):
     # ---------------------------------------------------------------- displacement codec never truncates silently (shared with C17.e)
     fcw = chk.facts("asmjit/core/codewriter.cpp", funcs=r"asmjit::CodeWriterUtils::(encode_offset32|encode_offset64|write_offset)$")
     narrow.run(chk, [cfg.Fn(fo) for fo in fcw["functions"]], floor=2)
+    fall_cw = chk.facts("asmjit/core/codewriter.cpp", funcs=r"asmjit::CodeWriterUtils[A-Za-z_0-9:]*$")
+    cw_helpers = {"%s/%d" % (cfg.Fn(fo).name, len(cfg.Fn(fo).params)): cfg.Fn(fo) for fo in fall_cw["functions"]}
+    cw_fns = [g for g in cw_helpers.values() if g.name.endswith(("encode_offset32", "encode_offset64"))]
+    fa64e = chk.facts("asmjit/arm/a64assembler.cpp", funcs=r"a64::Assembler::_emit$")
+    narrow.run_discard(chk, cw_fns + [cfg.find_fn(fa64e, "a64::Assembler::_emit")], cw_helpers)
 
     # ---------------------------------------------------------------- a label relocation takes offset and section from one label entry
     em = []
@@ -149,6 +154,9 @@ def run(chk):
     em2 = list(em)
     em2 += cfg.load_functions(chk.facts("asmjit/arm/a64assembler.cpp", funcs=r"a64::Assembler::_emit$"))
     relocrules.bound_unbound(chk, em2)
+    fch = chk.facts("asmjit/core/codeholder.cpp", funcs=r"asmjit::CodeHolder::(relocate_to_base|bind_label)$")
+    relocrules.target_section_used(chk, cfg.find_fn(fch, "CodeHolder::relocate_to_base"))
+    relocrules.bind_label_sections(chk, cfg.find_fn(fch, "CodeHolder::bind_label"))
 
     return chk.finish(
         level="other",
